@@ -117,16 +117,26 @@ theorem infer_fails_iff (v : PyVal) (hv : v.noCustomSig = true) :
   rw [sigFromPy_eq_inferTy v hv]
   cases inferTy v <;> simp [renderRes]
 
-/-- On values built from bool, int, float, str, bytearray, wrappers, lists, tuples and dicts
-inference always succeeds. -/
-theorem infer_total_on_builtin (v : PyVal) (hv : v.builtinOnly = true) : ∃ t, inferTy v = some t :=
-  inferTy_total v hv
+/-- "Always a single complete type" in the sense of the DBus specification: whenever inference succeeds
+(on a value without custom `dbusSignature` objects) the signature is the rendering of ONE type that is
+well formed - no empty struct, dict entries only as array elements, basic keys.  No side condition on the
+shape of the value: since fixes/C19-03 the empty tuple and non-basic dict keys have no inferred type. -/
+theorem infer_valid_type (v : PyVal) (hv : v.noCustomSig = true) (s : List Char)
+    (h : sigFromPy v = .ok s) : ∃ t : Ty, s = t.render ∧ t.wf = true ∧ parseType s = some t := by
+  rw [sigFromPy_eq_inferTy v hv] at h
+  cases ht : inferTy v with
+  | none => simp [ht, renderRes] at h
+  | some t =>
+    simp only [ht, renderRes] at h
+    cases h
+    exact ⟨t, rfl, inferTy_wf v t ht, parseType_render t⟩
 
-/-- Under the shape conditions DBus imposes (no empty tuple, dict keys scalar) the inferred type is a
-well-formed DBus type: non-empty structs, dict entries only inside arrays with a basic key. -/
-theorem infer_valid_type (v : PyVal) (hv : v.encodableShape = true) :
-    ∃ t, inferTy v = some t ∧ t.wf = true :=
-  inferTy_wf v hv
+/-- Values that have no DBus type are refused, not given an invalid signature. -/
+theorem no_type_no_signature :
+    sigFromPy (.tuple []) = .error .marshalling ∧
+    sigFromPy (.list [.tuple []]) = .error .marshalling ∧
+    sigFromPy (.dict [(.tuple [.int .plain 1, .int .plain 2], .int .plain 3)]) = .error .marshalling := by
+  decide
 
 /-- The explicit wrapper classes select exactly their DBus type, whatever the value. -/
 theorem wrapper_selects_type :
@@ -156,13 +166,64 @@ theorem wrapper_table_matches_source :
     Gen.Wrappers.variantClassMap = Gen.Wrappers.wrapperClasses.map (fun (n, _, s) => (s, n)) := by
   decide
 
-/-- The plain-int rule, the order of the class tests (bool before int) and the literal signatures of
-the model are those of the source. -/
-theorem int_rule_matches_source :
-    Gen.Wrappers.intRanges = [(-2147483648, 2147483648, 'i'), (-9223372036854775808, 9223372036854775808, 'x')] ∧
-    Gen.Wrappers.intDefault = 't' ∧
-    Gen.Wrappers.scalarBranches = [("bool", "b"), ("int", "int"), ("float", "d"), ("str", "s"), ("bytearray", "ay")] ∧
-    Gen.Wrappers.emptyListSig = "av" ∧ Gen.Wrappers.emptyDictSig = "a{sv}" ∧ Gen.Wrappers.mixedListSig = "av" := by
+/-- The step function `(below, breaks)` found by probing `sigFromPy` on integers. -/
+def stepSig (below : Char) (breaks : List (Int × Char)) (n : Int) : Char :=
+  breaks.foldl (fun acc b => if b.1 ≤ n then b.2 else acc) below
+
+/-- The plain-int rule of the model IS the rule found by probing the source, for every integer that a DBus
+integer type can hold (what happens beyond 64 bits is not part of the property and not tied). -/
+theorem int_rule_matches_source (n : Int) (hlo : -9223372036854775808 ≤ n) (hhi : n < 18446744073709551616) :
+    intSig n = [stepSig Gen.Wrappers.intBelow Gen.Wrappers.intBreaks n] := by
+  have hb : Gen.Wrappers.intBelow = 'x' := by decide
+  have hk : Gen.Wrappers.intBreaks =
+      [(-2147483648, 'i'), (2147483648, 'x'), (9223372036854775808, 't')] := by
+    decide
+  rw [hb, hk]
+  unfold intSig stepSig
+  simp only [List.foldl]
+  repeat' split
+  all_goals first | rfl | (exfalso; omega)
+
+/-- The probe values of tools/tables/c19_wrappers.py, as model values (same names, same order). -/
+def probeValues : List (String × PyVal) :=
+  let i (n : Int) : PyVal := .int .plain n
+  let s (c : Char) : PyVal := .str .plain [c]
+  let big : PyVal := .int .plain 1099511627776
+  [("True", .bool true), ("1.5", .float 0x3FF8000000000000), ("'x'", s 'x'), ("bytearray", .bytearray [120]),
+   ("None", .none),
+   ("Byte", .int .byte 1), ("Boolean", .int .boolean 1), ("Int16", .int .int16 1), ("UInt16", .int .uint16 1),
+   ("Int32", .int .int32 1), ("UInt32", .int .uint32 1), ("Int64", .int .int64 1), ("UInt64", .int .uint64 1),
+   ("Signature", .str .signature ['i']), ("ObjectPath", .str .objectPath ['/']),
+   ("[]", .list []), ("{}", .dict []), ("()", .tuple []),
+   ("[1]", .list [i 1]), ("[1,2]", .list [i 1, i 2]), ("[1,'a']", .list [i 1, s 'a']),
+   ("[1,True]", .list [i 1, .bool true]), ("[True,1]", .list [.bool true, i 1]),
+   ("[1,UInt64(1)]", .list [i 1, .int .uint64 1]), ("[UInt64(1),1]", .list [.int .uint64 1, i 1]),
+   ("['a',ObjectPath]", .list [s 'a', .str .objectPath ['/']]),
+   ("[1,2**40]", .list [i 1, big]), ("[2**40,1]", .list [big, i 1]),
+   ("[[]]", .list [.list []]), ("[[],[1]]", .list [.list [], .list [i 1]]), ("[[1],[]]", .list [.list [i 1], .list []]),
+   ("[None]", .list [.none]), ("[1,None]", .list [i 1, .none]),
+   ("(1,'a')", .tuple [i 1, s 'a']), ("((1,),[2])", .tuple [.tuple [i 1], .list [i 2]]),
+   ("[()]", .list [.tuple []]), ("(None,)", .tuple [.none]),
+   ("{'a':1}", .dict [(s 'a', i 1)]), ("{'a':1,'b':2}", .dict [(s 'a', i 1), (s 'b', i 2)]),
+   ("{'a':1,'b':'x'}", .dict [(s 'a', i 1), (s 'b', s 'x')]),
+   ("{'a':2,'b':True}", .dict [(s 'a', i 2), (s 'b', .bool true)]),
+   ("{'a':True,'b':2}", .dict [(s 'a', .bool true), (s 'b', i 2)]),
+   ("{'a':1,'b':2**40}", .dict [(s 'a', i 1), (s 'b', big)]), ("{'a':2**40,'b':1}", .dict [(s 'a', big), (s 'b', i 1)]),
+   ("{'k':'a',1:'b'}", .dict [(s 'k', s 'a'), (i 1, s 'b')]), ("{1:'a','k':'b'}", .dict [(i 1, s 'a'), (s 'k', s 'b')]),
+   ("{(1,2):3}", .dict [(.tuple [i 1, i 2], i 3)]), ("{1.5:[]}", .dict [(.float 0x3FF8000000000000, .list [])]),
+   ("{'a':{}}", .dict [(s 'a', .dict [])]), ("{'a':None}", .dict [(s 'a', .none)]),
+   ("{'a':1,'b':None}", .dict [(s 'a', i 1), (s 'b', .none)])]
+
+def showSig : Except PyErr (List Char) → List Char
+  | .ok s => s
+  | .error _ => "!".toList
+
+/-- On every probe value the model answers what the source answers (every rule of `sigFromPy`: class
+tests and their order, the literals 'a' '(' ')' 'a{' '}' 'v', emptiness, exact-class homogeneity, last key /
+first value, values without a DBus type). -/
+theorem probes_match_model :
+    Gen.Wrappers.probes.map (fun p => (p.1, p.2.toList)) =
+      probeValues.map (fun p => (p.1, showSig (sigFromPy p.2))) := by
   decide
 
 /-- The range rule in one statement: a plain int gets the smallest of INT32 / INT64 / UINT64 that
@@ -182,7 +243,7 @@ theorem plain_int_rule (n : Int) :
     simp [intBasic, h1, h2]
 
 example : sigFromPy (.dict [(.str .plain ['a'], .list [.int .plain 1, .bool true]),
-                            (.str .plain ['b'], .list [])]) = .ok "a{sai}".toList := by decide
+                            (.str .plain ['b'], .list [])]) = .ok "a{sav}".toList := by decide
 example : (PyVal.dict [(.str .plain ['a'], .list [.int .plain 1, .bool true])]).noCustomSig = true := by decide
 
 /-! ## 3. Witnesses: the code before the repairs violates the property -/
@@ -197,15 +258,37 @@ theorem prefix_model_f28_infers_i :
 
 /-- C19-01 (fixes/C19-01-dict-value-signature.patch): `{'a': 2, 'b': True}` - the values differ in
 Python type (int, bool), the snapshot judged `same` against `int` but took the signature of the last
-value, `a{sb}`, under which 2 travels as the boolean True; the repaired rule gives `a{si}`, the
-common base type.  Replay: corpus/C19/dict-value-from-last-bool.json. -/
+value, `a{sb}`, under which 2 travels as the boolean True; after C19-01 it was `a{si}`, after C19-02
+(exact class) the values travel as variants, `a{sv}`, like the list `[2, True]` (`av`).
+Replay: corpus/C19/dict-value-from-last-bool.json. -/
 theorem prefix_model_dict_value_from_last :
     sigFromPyOrig (.dict [(.str .plain ['a'], .int .plain 2), (.str .plain ['b'], .bool true)])
       = .ok "a{sb}".toList ∧
     sigFromPy (.dict [(.str .plain ['a'], .int .plain 2), (.str .plain ['b'], .bool true)])
-      = .ok "a{si}".toList ∧
-    sigFromPy (.list [.int .plain 2, .bool true]) = .ok "ai".toList := by
+      = .ok "a{sv}".toList ∧
+    sigFromPy (.list [.int .plain 2, .bool true]) = .ok "av".toList := by
   decide
+
+/-- C19-02 (fixes/C19-02-exact-class-homogeneity.patch): `[1, UInt64(2**40)]` - elements of different
+Python classes; the snapshot's `isinstance` test called them the same and inferred `ai`, which cannot hold
+2^40; the repaired rule sends them as variants.  Replay: corpus/C19/subclass-under-base-type.json. -/
+theorem prefix_model_subclass_under_base_type :
+    sigFromPyOrig (.list [.int .plain 1, .int .uint64 1099511627776]) = .ok "ai".toList ∧
+    sigFromPy (.list [.int .plain 1, .int .uint64 1099511627776]) = .ok "av".toList := by
+  decide
+
+/-- C19-03 (fixes/C19-03-no-dbus-type.patch): the snapshot gave `()` and a tuple-keyed dict signatures
+that are not complete types.  Replay: corpus/C19/empty-tuple.json, tuple-key.json. -/
+theorem prefix_model_invalid_signatures :
+    sigFromPyOrig (.tuple []) = .ok "()".toList ∧
+    sigFromPyOrig (.dict [(.tuple [.int .plain 1, .int .plain 2], .int .plain 3)]) = .ok "a{(ii)i}".toList ∧
+    (∀ t : Ty, t.wf = true → t.render ≠ "()".toList) := by
+  refine ⟨by decide, by decide, ?_⟩
+  intro t hwf h
+  have h2 : (Ty.struct []).render = "()".toList := by simp [Ty.render, renderAll]
+  have := Txdbus.render_injective (h.trans h2.symm)
+  subst this
+  simp [Ty.wf] at hwf
 
 /-! ## 4. Variant round trip - the inference side
 
@@ -243,7 +326,7 @@ theorem prefix_inferred_types_do_not_fit (okPath : List Char → Bool) :
   constructor
   · intro h
     cases h with
-    | basic _ _ hf => simp [fitsBasic, Basic.intRange?, PyVal.asInt?] at hf
+    | basic _ _ hf => simp [fitsBasic, Basic.intRange?] at hf
   · intro h
     cases h with
     | dict _ _ _ _ hv =>
@@ -257,11 +340,11 @@ local macro "ev" : tactic =>
       PyVal.isScalar, PyVal.pyType])
 
 /-- The hypotheses of `variant_roundtrip_partial` are satisfiable by non-trivial values:
-`{'a': 2, 'b': True}` (values of different Python types travelling as the common base type) and
+`{'a': 2, 'b': True}` (values of different Python classes: variants) and
 `[1, 'x']` (nested variants). -/
 example (okPath : List Char → Bool) :
     InClaim okPath (.dict [(.str .plain ['a'], .int .plain 2), (.str .plain ['b'], .bool true)]) := by
-  refine .dictSame _ _ _ .s (by decide) ?_ ?_ (.scalar _ .i (by ev) (by ev) (by ev)) ?_ ?_
+  refine .dictMixed _ _ _ .s (by decide) ?_ ?_ (.scalar _ .i (by ev) (by ev) (by ev)) ?_
   · intro kv hkv
     simp at hkv
     rcases hkv with rfl | rfl <;> ev
@@ -271,9 +354,6 @@ example (okPath : List Char → Bool) :
   · intro kv hkv
     simp at hkv; subst hkv
     exact .scalar _ .b (by ev) (by ev) (by ev)
-  · intro kv hkv
-    simp at hkv; subst hkv
-    exact Or.inr ⟨by ev, .i, by ev, by ev⟩
 
 example (okPath : List Char → Bool) : InClaim okPath (.list [.int .plain 1, .str .plain ['x']]) := by
   refine .listMixed _ _ (by decide) (.scalar _ .i (by ev) (by ev) (by ev)) ?_
@@ -296,13 +376,16 @@ end Txdbus.C19
 #print axioms Txdbus.C19.infer_single_complete_type
 #print axioms Txdbus.C19.infer_splits_into_one
 #print axioms Txdbus.C19.infer_fails_iff
-#print axioms Txdbus.C19.infer_total_on_builtin
+#print axioms Txdbus.C19.no_type_no_signature
 #print axioms Txdbus.C19.infer_valid_type
 #print axioms Txdbus.C19.wrapper_selects_type
 #print axioms Txdbus.C19.wrapper_table_matches_source
 #print axioms Txdbus.C19.int_rule_matches_source
+#print axioms Txdbus.C19.probes_match_model
 #print axioms Txdbus.C19.plain_int_rule
 #print axioms Txdbus.C19.prefix_model_f28_infers_i
 #print axioms Txdbus.C19.prefix_model_dict_value_from_last
+#print axioms Txdbus.C19.prefix_model_subclass_under_base_type
+#print axioms Txdbus.C19.prefix_model_invalid_signatures
 #print axioms Txdbus.C19.variant_roundtrip_partial
 #print axioms Txdbus.C19.prefix_inferred_types_do_not_fit
